@@ -458,31 +458,31 @@ func keep(pool *[][]byte, b []byte) {
 }
 
 // scripted raw PacketConn: hands out the frames in order, then fails.
-type scriptConn struct {
+type c03ScriptConn struct {
 	frames [][]byte
 	i      int
 	wrote  [][]byte
 }
 
-var errScriptEnd = errors.New("script exhausted")
+var errC03ScriptEnd = errors.New("script exhausted")
 
-func (c *scriptConn) ReadFrom(b []byte) (int, net.Addr, error) {
+func (c *c03ScriptConn) ReadFrom(b []byte) (int, net.Addr, error) {
 	if c.i >= len(c.frames) {
-		return 0, nil, errScriptEnd
+		return 0, nil, errC03ScriptEnd
 	}
 	f := c.frames[c.i]
 	c.i++
 	return copy(b, f), &net.UDPAddr{IP: net.IPv4(10, 0, 0, 1), Port: 67}, nil
 }
-func (c *scriptConn) WriteTo(b []byte, a net.Addr) (int, error) {
+func (c *c03ScriptConn) WriteTo(b []byte, a net.Addr) (int, error) {
 	c.wrote = append(c.wrote, append([]byte{}, b...))
 	return len(b), nil
 }
-func (c *scriptConn) Close() error                       { return nil }
-func (c *scriptConn) LocalAddr() net.Addr                { return &net.UDPAddr{} }
-func (c *scriptConn) SetDeadline(t time.Time) error      { return nil }
-func (c *scriptConn) SetReadDeadline(t time.Time) error  { return nil }
-func (c *scriptConn) SetWriteDeadline(t time.Time) error { return nil }
+func (c *c03ScriptConn) Close() error                       { return nil }
+func (c *c03ScriptConn) LocalAddr() net.Addr                { return &net.UDPAddr{} }
+func (c *c03ScriptConn) SetDeadline(t time.Time) error      { return nil }
+func (c *c03ScriptConn) SetReadDeadline(t time.Time) error  { return nil }
+func (c *c03ScriptConn) SetWriteDeadline(t time.Time) error { return nil }
 
 // run executes one case: the entry point, then (accepted, small enough) the observers.
 func (w *c03Worker) run(c *c03Case, observe bool) {
@@ -690,7 +690,7 @@ func (w *c03Worker) run(c *c03Case, observe bool) {
 		if buflen < 0 || buflen > c03MaxInput {
 			buflen = 300
 		}
-		sc := &scriptConn{frames: c.data}
+		sc := &c03ScriptConn{frames: c.data}
 		conn := nclient4.NewBroadcastUDPConn(sc, &net.UDPAddr{Port: port})
 		buf := make([]byte, buflen)
 		got := 0
